@@ -198,6 +198,27 @@ class Poly:
         """interval [lo, hi] (None = unbounded): interval arithmetic over the atoms, after a
         case split over (at most 4) boolean atoms that multiply non-boolean ones (if-then-else
         shaped polynomials)."""
+        ats = self.atoms()
+        if 1 <= len(ats) <= 6 and self.degree() >= 2 and all(is_bool_atom(a) for a in ats):
+            # exact range of a small boolean polynomial
+            ats = sorted(ats, key=_akey)
+            vals = []
+            for mask in range(1 << len(ats)):
+                asg = {a: (mask >> i) & 1 for i, a in enumerate(ats)}
+                if facts is not None and any(a in facts.known and facts.known[a] != v for a, v in asg.items()):
+                    continue
+                seen = {}
+                bad = False
+                for a, v in asg.items():
+                    if a[0] == "var" and v:
+                        if a[1] in seen:
+                            bad = True
+                        seen[a[1]] = 1
+                if bad:
+                    continue
+                vals.append(self.subst(asg).const_value())
+            if vals:
+                return (min(vals), max(vals))
         sel = []
         for m in self.terms:
             if len(m) >= 2 and any(not is_bool_atom(a) for a in m):
@@ -343,6 +364,13 @@ def ge0(p, facts=None):
     if lo == -1 and hi == 0:
         return p + 1  # p + 1 is 0/1-valued and p >= 0 <=> p + 1 == 1
     q = _canon_ge(p)
+    lo, hi = q.range(facts)
+    if lo is not None and lo >= 0:
+        return ONE
+    if hi is not None and hi < 0:
+        return ZERO
+    if lo == -1 and hi == 0:
+        return q + 1
     # choose between q >= 0 and its complement -q-1 >= 0 a canonical representative:
     # the one whose first non-constant monomial (in sorted order) has a positive coefficient
     items = sorted(((m, c) for m, c in q.terms.items() if m != ()), key=lambda mc: repr(mc[0]))
@@ -353,6 +381,11 @@ def ge0(p, facts=None):
 
 
 def eq0(p, facts=None):
+    coeffs = [abs(c) for c in p.terms.values()]
+    if coeffs:
+        g = reduce(gcd, coeffs)
+        if g > 1:
+            p = p.scale_div(g)
     lo, hi = p.range(facts)
     if lo is not None and hi is not None:
         if lo > 0 or hi < 0:
